@@ -70,6 +70,8 @@ def run(ctx):
                 continue
             try:
                 r = I.run(b, [("sym", "self"), minterp.adt(TY, k_prim, [minterp.adt(PT, j, [("sym", "x")] * len(F.adt(PT)["variants"][j]["fields"]))])])
+                if isinstance(r, tuple) and r and r[0] == "call":
+                    r = classify(I, r, pred)       # (a thin wrapper over an associated function: its table)
             except minterp.Unsupported as e:
                 r = f"unsupported({e})"
             ctx.check(r == spec[tab][pn], "R2.1", b.loc(), f"{pred}|primitive|{pn}", f"{pred}({pn}) = {r}; specification {spec[tab][pn]}", instance=f"{pred}({pn}) = {r}")
@@ -306,6 +308,8 @@ def run(ctx):
               f"union discriminator key: written {sorted(ser_consts)}, matched by the field visitors {sorted(consts)}; must be the single constant \"type\" on both sides", instance="discriminator \"type\" on both sides")
     # ---------------- R2.4-R2.6 primitive validators shared with C15 / C16 / C10 (the documents C02 must accept / reject)
     from . import c15, c16, c10, c14
+    from . import c01 as _c01
+    ctx.include(_c01, {"R1.5"}, "R2.9", "doubles, binary and map keys must be written and read in the Conjure spellings (a double-keyed map, a binary field)")
     ctx.include(c10, {"R10.5"}, "R2.8", "generated enums must read and write the declared value names")
     ctx.include(c14, {"R14.3"}, "R2.7", "set elements / map keys that differ only in the length of a list<double> must stay distinct when a document is read (the order decides set membership)")
     ctx.include(c15, {"O2", "O3"}, "R2.4", "every safelong in [-(2^53-1), 2^53-1] must be accepted and everything outside rejected")
@@ -313,9 +317,18 @@ def run(ctx):
     ctx.include(c10, {"R10.3"}, "R2.6", "malformed enum names must be rejected and well-formed ones accepted")
 
 
-def classify(I, r, pred):
+def classify(I, r, pred, depth=0):
     if isinstance(r, bool):
         return r
+    if isinstance(r, tuple) and r and r[0] == "call" and depth < 3 and r[1].split("::")[-1] != pred and r[1].startswith("conjure_codegen::context::"):
+        # a thin wrapper (`is_double(&self, ty) = Self::type_is_double(ty)`): the table is the callee's, whose self-recursion is
+        # the wrapper's
+        cbs = [x for x in I.crate.bodies if x.path == r[1] and x.kind in ("fn", "assoc_fn")]
+        if len(cbs) == 1 and len(r[2]) == cbs[0].argc and any(minterp.is_adt(a_) for a_ in r[2]):
+            try:
+                return classify(I, I.run(cbs[0], list(r[2])), r[1].split("::")[-1], depth + 1)
+            except minterp.Unsupported:
+                pass
     if isinstance(r, tuple) and r and r[0] == "recurse":
         return "recurse(" + minterp.show(I, r[1]) + ")"
     if minterp.is_adt(r) and r[1] == "core::option::Option":
